@@ -29,6 +29,7 @@ Skip  == [ok |-> FALSE, mode |-> "", buf |-> <<>>, pkts |-> <<>>]
 Step(s, e) ==   \* <<verdict, next state>>
   IF e.panic # "" THEN <<"panic", Skip>>
   ELSE IF ~e.input_same THEN <<"input-packet-modified", Skip>>
+  ELSE IF ~e.snaps_same THEN <<"earlier-bytes-or-packets-result-changed-by-a-later-call", Skip>>
   ELSE IF e.op = "reset" THEN
        IF e.bytes # <<>> \/ e.pk # <<>> THEN <<"reset-not-empty", Skip>>
        ELSE <<"", Fresh>>
